@@ -195,6 +195,10 @@ pub struct Flag {
 impl Flag {
     pub fn describe(&self) -> String {
         match self.kind {
+            FlagKind::FreeUnknown if self.off == u32::MAX => format!(
+                "dealloc(null, size {}, align {}) at_op={}: a pointer that was never allocated was freed",
+                self.f_size, self.f_align, self.op
+            ),
             FlagKind::LayoutMismatch => format!(
                 "layout-mismatch off={} allocated=({},{}) freed_with=({},{}) at_op={}",
                 self.off, self.a_size, self.a_align, self.f_size, self.f_align, self.op
@@ -712,6 +716,14 @@ unsafe impl GlobalAlloc for SimAlloc {
     }
 
     unsafe fn dealloc(&self, ptr: *mut u8, layout: Layout) {
+        if ptr.is_null() {
+            // never legal (the contract requires a currently allocated block);
+            // glibc would silently accept it as free(NULL)
+            if arena() != 0 {
+                st().flag(FlagKind::FreeUnknown, None, u32::MAX, Some(layout));
+            }
+            return;
+        }
         if in_arena(ptr) {
             st().do_free(ptr, layout, true)
         } else {
@@ -785,6 +797,12 @@ pub fn begin_run(cfg: Config) {
     s.free_seq = 0;
     s.cur_op = 0;
     s.counters = Counters::default();
+}
+
+/// False when no arena exists (the Miri tier: Miri's own allocator model is
+/// the simulated allocator there and SimAlloc is compiled out).
+pub fn tracking() -> bool {
+    arena() != 0
 }
 
 pub fn set_op(i: u32) {
